@@ -90,6 +90,18 @@ theorem tetri_maximal (h : sat σ (gen I)) (hwf : I.wf = true) (hm : I.noModel =
   have h2 := objective_eq_planReward h hwf hm
   exact gap_lemma (hopt σ' hs') hgap hsmall (by omega)
 
+/-- Naming convention of the framework: `tetri_maximal` is the *partial* form of the property's
+clause "no further offered task can be added" — the full-strength statement (without
+`rewarded t`) is refuted by `unrewarded_counterexample` below. -/
+theorem tetri_maximal_partial (h : sat σ (gen I)) (hwf : I.wf = true) (hm : I.noModel = false)
+    (hac : I.cplex = false → wfAcyclic I = true) {OPT : Int}
+    (hopt : ∀ τ, sat τ (gen I) → objective τ (gen I) ≤ OPT)
+    (hgap : 9 * OPT ≤ 10 * objective σ (gen I)) (hsmall : OPT < 10 * (I.den : Int))
+    {t : Nat} (ht : t ∈ I.nonRunning) (hrew : I.rewarded t = true)
+    (hun : (planOf I σ).get t = none) (q : Cell) :
+    ¬ ValidPlan I ((planOf I σ).set t (some q)) :=
+  tetri_maximal h hwf hm hac hopt hgap hsmall ht hrew hun q
+
 /-- The same in terms of the solvers' stopping rule: `B` is the solver's bound
 (`obj τ ≤ B` for all feasible `τ`), the search stops when `B − obj ≤ 0.1·obj`, and the returned
 objective is below ten units. -/
